@@ -18,6 +18,17 @@ CLAIMED = {
         "contract-based deductive verification: own VC generator over the real source (ast -> z3/cvc5), loop invariants, callee contracts",
         "DESIGN.md §3 C16",
     ),
+    "C05": (
+        "proof",
+        "mh_step is loop-free; its 13 obligations (accept => u < p, p=0 never / p=1 always accepted, NaN ratio <=> code 90 and rejected "
+        "with p=0, 0<=p<=1, state identity on reject / update_state(proposal) on accept, moved flag) are discharged by z3's floating-point "
+        "theory over the full binary32 domain of the three log-densities and the uniform draw; a native boundary grid incl. the key whose "
+        "draw is exactly 0.0 backs it (bounded) and replays counter-models.",
+        "exp abstracted relationally (A-EXP), uniform(key) in [0,1) (A-RNG), lax.cond = if/else (A-COND), z3 FP RNE = XLA CPU binary32 "
+        "(A-FP, cross-checked natively), model.log_prob/update_state arbitrary functions.",
+        "contract-based deductive verification: own VC generator over the real source (ast -> z3 FloatingPoint), complete for the loop-free function",
+        "DESIGN.md §3 C05",
+    ),
 }
 
 NOT_APPLICABLE = {
